@@ -92,6 +92,10 @@ CASES = [
     ("call chain: a method call behind a call no longer counts as obscuring", "src/formatters/functions.rs", "            Some(Suffix::Index(_)) | Some(Suffix::Call(Call::MethodCall(_)))\n        ) {\n            FunctionCallNextNode::ObscureWithoutParens", "            Some(Suffix::Index(_))\n        ) {\n            FunctionCallNextNode::ObscureWithoutParens", "args", "default", "C11.call_chain_loop"),
     ("call chain: the obscure flag is taken from the suffix itself instead of the next one", "src/formatters/functions.rs", "        let ambiguous_next_suffix = if matches!(\n            suffixes.peek(),\n            Some(Suffix::Index(_)) | Some(Suffix::Call(Call::MethodCall(_)))\n        ) {", "        let ambiguous_next_suffix = if matches!(\n            Some(suffix),\n            Some(Suffix::Index(_)) | Some(Suffix::Call(Call::MethodCall(_)))\n        ) {", "args", "default", "C11.call_chain_loop"),
     ("harmless: a call chain hangs at every call (layout only)", "src/formatters/functions.rs", "        let will_hang = must_hang\n            || (should_hang", "        let will_hang = must_hang\n            || (true", "args", "default", "ok"),
+    ("table: the ignore state is no longer updated from field to field", "src/formatters/table.rs", "        ctx = ctx.check_toggle_formatting(field);\n", "", "table", "default", "C08.table_loop"),
+    ("table: a multiline table formats every field under the table's own ignore state", "src/formatters/table.rs", "        let (formatted_field, mut trailing_trivia) = formatter(&ctx, field, table_type, shape);", "        let (formatted_field, mut trailing_trivia) = formatter(&Context { formatting_disabled: false, ..ctx }, field, table_type, shape);", "table", "default", "undecided"),
+    ("table: a one-line table drops its last field", "src/formatters/table.rs", "        fields.push(Pair::new(formatted_field, formatted_punctuation))\n    }\n\n    (braces, fields)\n}\n\n/// Expands a table", "        if formatted_punctuation.is_some() {\n            fields.push(Pair::new(formatted_field, formatted_punctuation))\n        }\n    }\n\n    (braces, fields)\n}\n\n/// Expands a table", "table", "default", "C08.table_loop"),
+    ("table: a table without fields that should expand is laid out as empty, one with fields never", "src/formatters/table.rs", "        None => match should_expand(ctx, table_constructor) {\n            true => TableType::MultiLine,\n            false => TableType::Empty,\n        },", "        None => TableType::Empty,", "table", "default", "ok"),
     # a predicate moved into a new helper next to the function: the helper is inlined (gen.InlineHelper) and verified as part of the caller
     ("helper: the sugar decision moved into a helper that forgets the Input exception", FU, [FA_DOC, FA_STR, FA_TAB], [HELPER_BAD + FA_DOC, FA_STR_H, FA_TAB_H], "args", "default", "C11.input_keeps_form"),
     ("harmless: the sugar decision moved into a helper (with a binding and an early return)", FU, [FA_DOC, FA_STR, FA_TAB], [HELPER_OK + FA_DOC, FA_STR_H, FA_TAB_H], "args", "default", "ok"),
@@ -127,7 +131,7 @@ def main():
             open(p, "w").write(src)
             out = r.stdout
             status = re.search(r"\] (ok|failed|undecided)", out)
-            status = status.group(1) if status else "?"
+            status = status.group(1) if status else ("undecided" if "EXTRACT ERROR" in out else "?")
             if expect == "ok": good = status == "ok"
             elif expect == "undecided": good = status == "undecided"
             else: good = status == "failed" and expect in out
